@@ -289,6 +289,7 @@ func init() {
 		c.Enumerate("c08/server-release")
 		c.Enumerate("c08/server-release-inflight")
 		c.Enumerate("c08/connect-fails")
+		c.Enumerate("c08/close-from-handler")
 		for _, cfg := range c08Configs() {
 			pb := c.Pick(2, 3)
 			if cfg.N == 2 || (cfg.Mode == "ls" && (cfg.Fault == "reset" || cfg.Fault == "eof")) {
@@ -666,6 +667,88 @@ func c08ConnectFails(tier string, i int) CaseResult {
 	return cr
 }
 
+// c08CloseFromHandler: the application closes the client from inside one of its own notification
+// handlers (a "shutdown" or "session revoked" notice) - on the listening stream, on the answer
+// stream of a call, on stdout. Close returns, and afterwards nothing of
+// the client is left.
+func c08CloseFromHandler(tier string, i int) CaseResult {
+	variant := []string{"sj-get", "ss-get", "ss-post", "io"}[i]
+	mode := strings.SplitN(variant, "-", 2)[0]
+	cr := CaseResult{Desc: "client=" + variant + ": Close is called from inside a notification handler", Nontrivial: true}
+	var viol []explore.Violation
+	obs := &hx.Log{}
+	k := func(s string) string { return fmt.Sprintf("%s:close-from-handler:%s", s, variant) }
+	res := vsched.Run(vsched.Config{}, func() {
+		ss := newScriptedServer(mode)
+		note := `{"jsonrpc":"2.0","method":"notifications/bye","params":{"reason":"revoked"}}`
+		ss.onRequest = func(msg map[string]interface{}, rawMsg string, w scriptWriter) bool {
+			if m, _ := msg["method"].(string); m != "tools/call" || variant != "ss-post" {
+				return false
+			}
+			w.Frame(note)
+			w.Frame(fmt.Sprintf(`{"jsonrpc":"2.0","id":%s,"result":{"content":[{"type":"text","text":"late"}]}}`, rawID([]byte(rawMsg))))
+			return true
+		}
+		cl, err := ss.connect(mcp.WithClientGetSSEEnabled(true))
+		if err != nil {
+			viol = append(viol, V("setup-handshake-fails", "setting the scenario up with well-behaved peers fails: %v", err))
+			return
+		}
+		entered, returned := &hx.Flag{}, &hx.Flag{}
+		cl.RegisterNotificationHandler("notifications/bye", func(n *mcp.JSONRPCNotification) error {
+			entered.Set()
+			cl.Close()
+			returned.Set()
+			return nil
+		})
+		vsched.Quiesce()
+		if variant == "ss-post" {
+			vsched.Go("caller", func() {
+				rq := &mcp.CallToolRequest{}
+				rq.Params.Name = "t"
+				cl.CallTool(context.Background(), rq)
+			})
+		} else if w := ss.background(); w != nil {
+			w.Frame(note)
+		} else {
+			viol = append(viol, V("harness", "no background stream to send the notification on"))
+			return
+		}
+		vsched.Quiesce()
+		obs.Add("entered=%v returned=%v", entered.Get(), returned.Get())
+		if !entered.Get() {
+			viol = append(viol, V("harness", "the notification handler was never called"))
+			return
+		}
+		if !returned.Get() {
+			viol = append(viol, V(k("close-hangs"), "Close, called from inside a notification handler, does not return; blocked: %v", vsched.LiveThreads()))
+			return
+		}
+		again := &hx.Flag{}
+		vsched.Go("close-again", func() { cl.Close(); again.Set() })
+		vsched.Quiesce()
+		if !again.Get() {
+			viol = append(viol, V(k("second-close-hangs"), "a second Close does not return; blocked: %v", vsched.LiveThreads()))
+		}
+		ss.stop()
+		vsched.Quiesce()
+		if leaked := libraryThreads(vsched.LiveThreads()); len(leaked) > 0 {
+			viol = append(viol, V(k("goroutine-leak"), "after Close (from a handler) these library goroutines are still alive: %v", leaked))
+		}
+		if ss.fab != nil {
+			for _, x := range ss.fab.OpenBodies() {
+				viol = append(viol, V(k("body-leak"), "the response body of %s %s was never closed by the client", x.Method, x.Path))
+				break
+			}
+		}
+	})
+	o := finishOutcome(res, obs, viol, true)
+	cr.ObsKey = cr.Desc + o.ObsKey
+	cr.Violations = o.Violations
+	cr.Broken = o.Broken
+	return cr
+}
+
 type c08CtxKey struct{}
 
 // c08ServerRelease: "on the server once the peer's connections are gone, the goroutines ... the
@@ -919,6 +1002,8 @@ func init() {
 		Count: func(string) int { return 6 }, Eval: c08ServerReleaseInflight})
 	RegisterEnum(&Enum{Name: "c08/connect-fails", Doc: "the first exchange of a client fails (refused, reset, EOF before headers, 500, 404, a stream that ends at once; also with retry configured) while the caller's context stays alive; three attempts in a row: Initialize fails, Close returns, no goroutine or response body of the attempt is left",
 		Count: func(string) int { return 21 }, Eval: c08ConnectFails})
+	RegisterEnum(&Enum{Name: "c08/close-from-handler", Doc: "Close called from inside a notification handler (listening stream of a JSON / SSE Streamable client, answer stream of a call, stdout): it returns, a second Close returns, no goroutine or response body is left",
+		Count: func(string) int { return 4 }, Eval: c08CloseFromHandler})
 	RegisterEnum(&Enum{Name: "c08/retry-cancel", Doc: "clients with retry configured, every attempt answered 503: the context is cancelled (or its deadline passes) during the wait between two attempts; the call ends at once",
 		Count: func(string) int { return 6 }, Eval: c08RetryCancel})
 	RegisterEnum(&Enum{Name: "c08/get-refused", Doc: "Streamable client whose automatic listening stream is refused (405, 404, 400, 500, 503, 401, each with a body): calls work, and after Close no goroutine or response body of the refused exchange is left",
